@@ -439,6 +439,7 @@ void Exec::run_op(const Op& op) {
       if (cd) {
         if (!op_fault_fired()) dg_compound(g, cd);
         if (op.s.find('(') != std::string::npos) SH->probes[PR_NESTED_FORMULA]++;
+        if (g_locale_cfg == LOC_XX && op.s.find('.') != std::string::npos) SH->probes[PR_FRACTION_PARSED_IN_COMMA_LOCALE]++;
         if (op.selfc && !op_fault_fired()) FreeCompoundData(cd);
         else { nh.type = HT_COMPOUND; nh.p = cd; }
       }
